@@ -2025,9 +2025,20 @@ class _Normalizer:
                     if len(fi.node.decorator_list) != 1 or len(fi.node.args.args) != 1:
                         continue
                     body = _body(fi.node)
-                    if len(body) != 1 or not isinstance(body[0], ast.Return) or body[0].value is None:
+
+                    def as_expr(stmts):
+                        """``if c: return a`` + ``return b`` (any depth) is ``a if c else b``"""
+                        if len(stmts) == 1 and isinstance(stmts[0], ast.Return) and stmts[0].value is not None:
+                            return stmts[0].value
+                        if stmts and isinstance(stmts[0], ast.If):
+                            a_ = as_expr(stmts[0].body)
+                            b_ = as_expr(stmts[0].orelse or stmts[1:])
+                            if a_ is not None and b_ is not None and (stmts[0].orelse == [] or len(stmts) == 1):
+                                return ast.IfExp(test=stmts[0].test, body=a_, orelse=b_)
+                        return None
+                    e = as_expr(body)
+                    if e is None:
                         continue
-                    e = body[0].value
                     if any(isinstance(x, (ast.Yield, ast.YieldFrom, ast.Await, ast.Lambda, ast.NamedExpr, ast.ListComp,
                                           ast.SetComp, ast.DictComp, ast.GeneratorExp)) for x in ast.walk(e)):
                         continue
